@@ -155,6 +155,8 @@ structure Cfg where
   host : String
   realm : String
   listen : Bool
+  /-- number of local addresses the node listens on / announces in Host-IP-Address -/
+  addrs : Nat := 1
   cea : Nat := 4
   cer : Nat := 4
   dwa : Nat := 4
@@ -422,7 +424,7 @@ def generateAnswer (s : St) (m : AMsg) (info : MsgInfo) (rc : Option Nat) (fa : 
 
 def ceaSummary (s : St) : String :=
   let l (xs : List Nat) := "+".intercalate (xs.map toString)
-  s!"ip={if s.cfg.listen then 1 else 0};vid=99999;pn=python-diameter;auth={l (authIds s)};acct={l (acctIds s)};supp=1"
+  s!"ip={if s.cfg.listen then s.cfg.addrs else 0};vid=99999;pn=python-diameter;auth={l (authIds s)};acct={l (acctIds s)};supp=1"
 
 /-- `send_cer`. -/
 def sendCer (s : St) (cid : Nat) : St :=
